@@ -288,14 +288,41 @@ func vRunGetScenario(scn vGetScenario) []map[string]interface{} {
 				match = bytes.Equal(p[:n], want)
 			}
 		case "file":
-			mt := fmt.Sprintf(". %s+%d 0:%d:f\n", hash, L, L)
+			// f is the segment [a, a+m) of the block; other files of the same stream cover the
+			// rest, so that the segment may end before the block does (several files packed into
+			// one block).  Read either in one go or in chunks no longer than the segment.
+			a, m := 0, L
+			if variant%3 != 0 && L >= 2 {
+				a = (variant / 3) % L
+				m = 1 + (variant/7)%(L-a)
+			}
+			mt := fmt.Sprintf(". %s+%d %d:%d:f", hash, L, a, m)
+			if a > 0 {
+				mt += fmt.Sprintf(" 0:%d:g", a)
+			}
+			if a+m < L {
+				mt += fmt.Sprintf(" %d:%d:h", a+m, L-a-m)
+			}
+			mt += "\n"
 			f, err := kc.CollectionFileReader(map[string]interface{}{"manifest_text": mt}, "f")
 			if err == nil {
 				var buf []byte
-				buf, err = ioutil.ReadAll(f)
+				if variant%2 == 0 {
+					buf, err = ioutil.ReadAll(f)
+				} else {
+					p := make([]byte, 1+(variant/11)%(m+2))
+					for err == nil && len(buf) <= L+len(p) {
+						var n int
+						n, err = f.Read(p)
+						buf = append(buf, p[:n]...)
+					}
+					if err == io.EOF {
+						err = nil
+					}
+				}
 				f.Close()
 				ok = err == nil
-				match = bytes.Equal(buf, data)
+				match = bytes.Equal(buf, data[a:a+m])
 			}
 		}
 		g.log(map[string]interface{}{"ev": "ret", "r": r, "ok": ok, "match": match})
